@@ -972,6 +972,8 @@ class RewriteAtQuery(NodeTransformer):
             not self.replaced
             and hasattr(node, "_location")
             and node._location == self.search
+            # a string constant carries a location too; it is never what a search addresses
+            and not isinstance(node, (Constant, Str))
         ):
             self.replaced = True
             return self.replacement_node
